@@ -1,5 +1,6 @@
 //! C04: gitignore semantics.  Kinds 401 (the real directory walker on a materialised tree),
-//! 402 (Gitignore::matched_path_or_any_parents), 403 (GitignoreBuilder::add_line flags).
+//! 402 (Gitignore::matched_path_or_any_parents), 403 (GitignoreBuilder::add_line flags),
+//! 405 (one ignore line with a bracket expression: add_line, build of the file's glob set, verdicts on n<probe>m).
 use crate::val::Val;
 use ignore::gitignore::GitignoreBuilder;
 use ignore::{Match, WalkBuilder};
@@ -12,6 +13,7 @@ pub fn dispatch(kind: u32, v: &Val) -> Option<Val> {
         401 => Some(run_walk(v)),
         402 => Some(run_one_file(v)),
         403 => Some(run_add_line(v)),
+        405 => Some(run_class_line(v)),
         _ => None,
     }
 }
@@ -99,4 +101,18 @@ fn run_add_line(v: &Val) -> Val {
             Val::L(vec![Val::N(2), Val::of_bool(white)])
         }
     }
+}
+
+/// (line probes): (1) = add_line rejects the line, (2) = the glob set of the file does not build,
+/// (0 verdicts) = Gitignore::matched on "n<probe>m" for every probe byte
+fn run_class_line(v: &Val) -> Val {
+    let mut b = GitignoreBuilder::new("");
+    let s = String::from_utf8_lossy(&v.fld(0).bytes()).into_owned();
+    if b.add_line(None, &s).is_err() { return Val::L(vec![Val::N(1)]); }
+    let gi = match b.build() { Ok(gi) => gi, Err(_) => return Val::L(vec![Val::N(2)]) };
+    let out: Vec<Val> = v.fld(1).bytes().iter().map(|&c| {
+        let name = [b'n', c, b'm'];
+        verdict(gi.matched(p(&name), false))
+    }).collect();
+    Val::L(vec![Val::N(0), Val::L(out)])
 }
